@@ -5,7 +5,6 @@ package rfc4757
 
 //@ func crypto/rfc4757.EncryptData(key, data, e) (ct, err)
 //@   pure
-//@   trusted_frame returned slices are not tracked as fresh; in-place append into spare capacity cannot be excluded
 //@   requires tagof(e) == typeid("crypto.RC4HMAC")
 //@   ensures err == nil <==> et_encok(tagof(e), len(key), len(data))
 //@   ensures err == nil ==> len(ct) == len(data)
@@ -13,7 +12,6 @@ package rfc4757
 //@   ensures err != nil ==> len(ct) == 0
 //@ func crypto/rfc4757.DecryptData(key, data, e) (pt, err)
 //@   pure
-//@   trusted_frame returned slices are not tracked as fresh; in-place append into spare capacity cannot be excluded
 //@   requires tagof(e) == typeid("crypto.RC4HMAC")
 //@   ensures err == nil <==> et_decok(tagof(e), len(key), len(data))
 //@   ensures err == nil ==> len(pt) == len(data)
